@@ -157,12 +157,14 @@ type uriSpec struct {
 	bytesAPI                 bool // the …Bytes setters
 	twice                    bool // every component was set to something else first
 	delArgs                  bool // the query argument is added and then deleted again
+	noNorm                   bool // DisablePathNormalizing on both sides (paths from a wire-safe set)
 }
 
 var reusedCookie protocol.Cookie
 
 func uriRT(s uriSpec) string {
 	var u protocol.URI
+	u.DisablePathNormalizing = s.noNorm
 	if s.twice {
 		// the setters are called a second time: the final values are what counts
 		u.SetScheme("ftp")
@@ -203,10 +205,12 @@ func uriRT(s uriSpec) string {
 	full := string(u.FullURI())
 	var v protocol.URI
 	v.Parse(nil, []byte(full))
+	v.DisablePathNormalizing = s.noNorm // (Parse resets the option)
 	// and into a long-lived URI that parsed something else before
 	reusedURI.Parse(nil, []byte("https://dirty.host:1/dirty/path?dq=1&token=secret&b=2#dirtyfrag"))
 	reusedURI.QueryArgs().Len()
 	reusedURI.Parse(nil, []byte(full))
+	reusedURI.DisablePathNormalizing = s.noNorm
 	if !bytes.Equal(reusedURI.FullURI(), v.FullURI()) || reusedURI.QueryArgs().String() != v.QueryArgs().String() {
 		return fmt.Sprintf("a reused URI object parses %q differently from a fresh one: %q (args %q) vs %q (args %q)", full, reusedURI.FullURI(), reusedURI.QueryArgs().String(), v.FullURI(), v.QueryArgs().String())
 	}
@@ -346,6 +350,12 @@ func work(w *mon.W) {
 		for it := 0; it < 500; it++ {
 			s := uriSpec{scheme: r.Str("http", "https"), host: r.Str("h", "h.com:80", "[::1]:8080", "H.Com", "[2001:db8::1]", "a-b.example:65535"), path: "/" + rs(r, 6, alphaR), hash: rs(r, 4, alphaR)}
 			s.bytesAPI, s.twice, s.delArgs = r.Bool(), r.Chance(3), r.Chance(5)
+			if r.Chance(6) {
+				// path normalising off: the caller is responsible for escaping, so only paths
+				// that are valid on the wire as they stand — with and without the leading slash
+				s.noNorm = true
+				s.path = r.Str("api/v1", "/api/v1", "x", "/a//b", "/a/./b/", "", "/")
+			}
 			if r.Bool() {
 				s.useArgs = true
 				s.qk, s.qv = rs(r, 3, alphaR)+"k", rs(r, 4, alphaR)
